@@ -70,12 +70,18 @@ theorem C15_query_ids (toLayer : Bool) (id : Nat) :
       enc [.dyn trbBridgeTag, .dyn (enc [.word (u256 (if toLayer then 1 else 0)), .word (u256 id)])] := by
   simp [goQueryData, boolWord]
 
-/-- **C15 (power threshold).** The threshold is `⌊2·total/3⌋` (regenerated from the source), and any
-signer set holding more than two thirds of the power reaches it. -/
-theorem C15_threshold (total p : Int) (ht : 0 ≤ total) (hp : 3 * p > 2 * total) :
-    p ≥ Layer.Gen.powerThreshold total := by
+/-- **C15 (power threshold).** The threshold (regenerated from the source) is exactly two thirds of the total power rounded
+down, `⌊2·total/3⌋`, for every total — neither more (a two-thirds majority must reach it) nor a whole unit less. -/
+theorem C15_threshold (total : Int) (ht : 0 ≤ total) :
+    3 * Layer.Gen.powerThreshold total ≤ 2 * total ∧ 2 * total < 3 * Layer.Gen.powerThreshold total + 3 := by
   unfold Layer.Gen.powerThreshold
   rw [Int.tdiv_eq_ediv_of_nonneg (by omega)]
+  omega
+
+/-- consequently any signer set holding more than two thirds of the power reaches the threshold -/
+theorem C15_threshold_reached (total p : Int) (ht : 0 ≤ total) (hp : 3 * p > 2 * total) :
+    p ≥ Layer.Gen.powerThreshold total := by
+  have := (C15_threshold total ht).1
   omega
 
 /-- **C15 (signature digest convention).** `abi.encodePacked(bytes32 d)` is `d` itself, so the contract
